@@ -28,7 +28,7 @@ class C03(Spec):
     theorems = ["Nun.C03_write_accepted", "Nun.C03_write_refused", "Nun.C03_remove_notifies", "Nun.C03_increment_accepted", "Nun.C03_increment_refused",
                 "Nun.C03_other_clients_cannot_touch", "Nun.C03_unsubscribe", "Nun.C03_ends_current", "Nun.watch_nodup", "Nun.unwatch_nodup"]
     rule = ("two writer sessions and two subscriber sessions on one database: all sequences of length L (3 quick / 4 thorough) over {watch a, watch b, unwatch a, unwatch-all, disconnect+reconnect} per subscriber and "
-            "{set, set-safe accepted/refused, increment ok/non-numeric, remove, replicated set/remove/increment, refused secure-key write} per writer, plus seeded random sequences of 6-20 operations; "
+            "{set, set-safe accepted/refused, increment ok/non-numeric, remove, replicated set/remove/increment, refused secure-key write} per writer, plus seeded random sequences of 6-20 operations, plus all sequences of length 2 behind a DEAD subscriber (a session that watched the keys first, selected another database and closed: its senders stay registered and every send to them fails); "
             "the oracle keeps its own subscription table (from the watch/unwatch/unwatch-all/disconnect commands that succeeded) and, for every command, compares the lines pushed to each subscriber with "
             "exactly one changed+changed-version pair (committed value) / one removed line per subscription of the mutated key, nothing otherwise; at the end the last changed-version a subscriber holds for a key it still watches equals the stored value. "
             "non-trivial = at least one notification delivered and one unsubscribe; distinct by trace hash. SEQUENTIAL: one command at a time (lock-level interleavings: schedule stage)")
@@ -80,6 +80,16 @@ class C03(Spec):
         small = [x for x in al if not x.startswith("C 1 replicate") and "$$" not in x]
         for seq in itertools.product(small, repeat=L):
             c = list(SETUP) + pre
+            for x in seq: c += x.split("\n")
+            c += ["C 1 set a fin", "C 1 get-safe a"]
+            cases.append(c)
+        # a DEAD subscriber ahead of the live ones: session 6 watched a and b first, then selected another database and closed —
+        # its unwatch-all cleaned the other database only, its senders stay registered here and every send to them fails;
+        # the live subscribers behind it must still get everything
+        dead = ["RESET", "SESS 1", "C 1 auth adm pw", "C 1 create-db t tok", "C 1 create-db u tk2", "C 1 use-db t tok", "SESS 2", "C 2 use-db t tok",
+                "SESS 6", "C 6 use-db t tok", "C 6 watch a", "C 6 watch b", "SESS 3", "C 3 use-db t tok", "SESS 4", "C 4 use-db t tok"] + pre + ["C 6 use-db u tk2", "CLOSE 6"]
+        for seq in itertools.product(small, repeat=2):
+            c = list(dead)
             for x in seq: c += x.split("\n")
             c += ["C 1 set a fin", "C 1 get-safe a"]
             cases.append(c)
